@@ -1146,8 +1146,68 @@ def r4(ctx, R):
                             R.violation("C20.R4", f.short, key(f, n), loc(f, n), "an existing object is stored into a children list without an ancestry test")
 
 
+GROW = ("append", "extend", "insert", "add", "appendleft", "extendleft")
+
+
+def r5(ctx, R):
+    R.rule("C20.R5", "no collection of the index grows while it is being iterated: a loop over an object's member list that (directly or through a method) appends to the same field of a possibly identical object iterates over a snapshot or excludes the identity first", floor=1, confirmed=1)
+    summ = ctx.e.summaries()
+    n = 0
+    snapshots = 0
+    for f in ctx.m.funcs.values():
+        if f.rel.endswith("debug.py"):
+            continue
+        F = None
+        for lp in (x for x in ctx.m.walk_own(f.node) if isinstance(x, ast.For)):
+            it = lp.iter
+            snap = isinstance(it, ast.Call) and isinstance(it.func, ast.Name) and it.func.id in ("list", "tuple", "sorted") and it.args and isinstance(it.args[0], ast.Attribute)
+            snap = snap or (isinstance(it, ast.Call) and isinstance(it.func, ast.Attribute) and it.func.attr == "copy") or (isinstance(it, ast.Subscript) and isinstance(it.slice, ast.Slice))
+            base = it.args[0] if snap and isinstance(it, ast.Call) and it.args else (it.func.value if snap and isinstance(it, ast.Call) else (it.value if snap else it))
+            if not isinstance(base, ast.Attribute):
+                continue
+            fld, X = base.attr, unparse(base.value)
+            grows = []
+            for c in (x for x in ast.walk(lp) if isinstance(x, ast.Call) and isinstance(x.func, ast.Attribute)):
+                if c.func.attr in GROW and isinstance(c.func.value, ast.Attribute) and c.func.value.attr == fld:
+                    grows.append((c, unparse(c.func.value.value), "directly"))
+                    continue
+                k, tg = ctx.r.resolve_call(f, c)
+                if k in ("external", "unknown"):
+                    continue
+                for q in tg:
+                    if any(root == "self" and path == fld and kind == "mutate" for (root, path, kind) in summ.get(q, {})):
+                        g = ctx.m.funcs[q]
+                        if any(isinstance(x, ast.Call) and isinstance(x.func, ast.Attribute) and x.func.attr in GROW and unparse(x.func.value) == f"self.{fld}" for x in ast.walk(g.node)):
+                            grows.append((c, unparse(c.func.value), f"through {g.short}"))
+                            break
+            if not grows:
+                continue
+            n += 1
+            if snap:
+                snapshots += 1
+                R.ok("C20.R5", f.short, f"for ... in {unparse(it)[:50]}", loc(f, lp), f"snapshot; body grows .{fld} of {sorted({y for _, y, _ in grows})}")
+                continue
+            F = F or ctx.facts(f, interproc=False)
+            for c, Y, how in grows:
+                cx = ctx.r.expr_classes(f, base.value) or set()
+                cy_node = c.func.value.value if how == "directly" else c.func.value
+                cy = ctx.r.expr_classes(f, cy_node) or set()
+                distinct_cls = bool(cx) and bool(cy) and not any(a == b or a in ctx.m.mro(b) or b in ctx.m.mro(a) for a in cx for b in cy)
+                facts = F.at(c) or set()
+                excluded = any(b[0] == "cond" and ((b[1] in (f"{X} is not {Y}", f"{Y} is not {X}") and b[2] is True) or (b[1] in (f"{X} is {Y}", f"{Y} is {X}") and b[2] is False)) for b in facts)
+                k = f"for ... in {unparse(it)[:40]}: {unparse(c)[:40]}"
+                if X == Y:
+                    R.violation("C20.R5", f.short, k, loc(f, c), f"the loop appends to the very list it iterates ({X}.{fld}, {how}): it never ends")
+                elif distinct_cls or excluded:
+                    R.ok("C20.R5", f.short, k, loc(f, c), "receiver cannot be the iterated object")
+                else:
+                    R.violation("C20.R5", f.short, k, loc(f, c), f"`{Y}` may be the same object as `{X}` (a file that INCLUDEs itself, a scope grafted into itself): the loop then appends to the list it is iterating ({how}) and never ends, growing memory without bound")
+    R.notes.append(f"C20.R5: {n} loops whose body grows the iterated field ({snapshots} over a snapshot)")
+
+
 def run(ctx, R):
     LF = r1(ctx, R)
     r4(ctx, R)
+    r5(ctx, R)
     r2(ctx, R, LF)
     r3(ctx, R)
